@@ -8,7 +8,7 @@ CONSTANTS
  RetryLimit = 3
  Schemes = {"reg", "ocidir"}
  Vias = {"reader"}
- Withs = {FALSE}
+ Withs = {TRUE, FALSE}
  Chunks = {5}
  LyingSizes = TRUE
  InlineData = TRUE
